@@ -111,6 +111,7 @@ type EndCli struct {
 func init() {
 	Register(&Scenario{
 		Name:     "connend",
+		DescToo:  true,
 		Property: "C15",
 		Cfg:      vsched.Config{Horizon: 10 * time.Second},
 		Params: func(tier string) []Param {
